@@ -71,6 +71,46 @@ var c16Payloads = []struct{ name, yaml string }{
 	{"percent", `%s%d`}, {"esc", `a\eb`}, {"nel", `a\Nb`}, {"ls", `a\Lb`}, {"tab", `a\tb`},
 }
 
+// c16Templates echo a user string only when it occurs at several places (§ = the payload).
+var c16Templates = []string{
+	// duplicate matrix values: scalar, mapping key, mapping value, nested sequence
+	c16Job("    strategy:\n      matrix:\n        cfg: [§, §]\n"),
+	c16Job("    strategy:\n      matrix:\n        cfg: [{§: 1}, {§: 1}]\n"),
+	c16Job("    strategy:\n      matrix:\n        cfg: [{k: §}, {k: §}]\n"),
+	c16Job("    strategy:\n      matrix:\n        cfg: [[§, 1], [§, 1]]\n"),
+	c16Job("    strategy:\n      matrix:\n        cfg: [{k: {§: [§]}}, {k: {§: [§]}}]\n"),
+	// exclude / include against the rows
+	c16Job("    strategy:\n      matrix:\n        cfg: [{§: 1}, x]\n        exclude:\n          - cfg: {§: 2}\n"),
+	c16Job("    strategy:\n      matrix:\n        cfg: [§, x]\n        exclude:\n          - cfg: [§]\n"),
+	c16Job("    strategy:\n      matrix:\n        cfg: [[§], {a: §}]\n        exclude:\n          - cfg: zz\n"),
+	c16Job("    strategy:\n      matrix:\n        cfg: [x]\n        exclude:\n          - §: 1\n"),
+	c16Job("    strategy:\n      matrix:\n        §: [x]\n        exclude:\n          - §: y\n"),
+	c16Job("    strategy:\n      matrix:\n        cfg: [x]\n        other: [y]\n        exclude:\n          - cfg: §\n            other: {§: §}\n"),
+	// duplicate ids / names
+	"on: push\njobs:\n  a:\n    runs-on: ubuntu-latest\n    steps:\n      - id: §\n        run: echo\n      - id: §\n        run: echo\n",
+	"on: push\njobs:\n  a:\n    needs: [§, §]\n    runs-on: ubuntu-latest\n    steps:\n      - run: echo\n",
+	"on: push\njobs:\n  §:\n    runs-on: ubuntu-latest\n    steps:\n      - run: echo\n  b:\n    needs: [§]\n    runs-on: ubuntu-latest\n    steps:\n      - run: echo ${{ needs.nosuch }}\n",
+	"on: push\njobs:\n  a:\n    runs-on: ubuntu-latest\n    env:\n      §: 1\n      §: 2\n    steps:\n      - run: echo\n",
+	"on: push\njobs:\n  a:\n    runs-on: ubuntu-latest\n    steps:\n      - uses: actions/checkout@v4\n        with:\n          §: 1\n          §: 2\n",
+	"on: push\njobs:\n  a:\n    runs-on: [§, §, ubuntu-latest, windows-latest]\n    steps:\n      - run: echo\n",
+	"on: push\njobs:\n  a:\n    runs-on: ubuntu-latest\n    outputs:\n      §: a\n      §: b\n    steps:\n      - run: echo\n",
+	"on: push\njobs:\n  a:\n    runs-on: ubuntu-latest\n    services:\n      §:\n        image: x\n      §:\n        image: y\n    steps:\n      - run: echo ${{ job.services.nosuch }}\n",
+	// declared sets
+	"on:\n  workflow_dispatch:\n    inputs:\n      x:\n        type: choice\n        options: [§, §]\n        default: zz\njobs:\n  a:\n    runs-on: ubuntu-latest\n    steps:\n      - run: echo\n",
+	"on:\n  workflow_dispatch:\n    inputs:\n      x:\n        type: choice\n        options: [p]\n        default: §\njobs:\n  a:\n    runs-on: ubuntu-latest\n    steps:\n      - run: echo\n",
+	"on:\n  workflow_dispatch:\n    inputs:\n      §:\n        type: string\n      §:\n        type: string\njobs:\n  a:\n    runs-on: ubuntu-latest\n    steps:\n      - run: echo ${{ inputs.nosuch }}\n",
+	"on:\n  workflow_call:\n    inputs:\n      §:\n        type: string\n    secrets:\n      §:\n        required: true\n    outputs:\n      §:\n        value: v\njobs:\n  a:\n    runs-on: ubuntu-latest\n    steps:\n      - run: echo ${{ inputs.nosuch }} ${{ secrets.nosuch.x }}\n",
+	"on:\n  push:\n    branches: [§, §]\n    branches-ignore: [§]\n    paths: [§]\n    paths-ignore: [§]\njobs:\n  a:\n    runs-on: ubuntu-latest\n    steps:\n      - run: echo\n",
+	"on: [§, §]\njobs:\n  a:\n    runs-on: ubuntu-latest\n    steps:\n      - run: echo\n",
+	"on: push\npermissions:\n  §: read\n  §: write\njobs:\n  a:\n    runs-on: ubuntu-latest\n    steps:\n      - run: echo\n",
+	"on: push\njobs:\n  a:\n    runs-on: ubuntu-latest\n    strategy:\n      matrix:\n        §: [1]\n    steps:\n      - run: echo ${{ matrix.nosuch }} ${{ matrix }}\n",
+	"on: push\njobs:\n  a:\n    runs-on: ubuntu-latest\n    steps:\n      - id: s\n        run: echo\n        shell: §\n      - run: echo\n        shell: §\n",
+}
+
+func c16Job(strategy string) string {
+	return "on: push\njobs:\n  a:\n    runs-on: ubuntu-latest\n" + strategy + "    steps:\n      - run: echo ${{ matrix.nosuch }} ${{ toJSON(matrix) == 1 }}\n"
+}
+
 var c16Matcher *regexp.Regexp
 
 func c16LoadMatcher(repo string) error {
@@ -396,6 +436,32 @@ func TestVerifC16(t *testing.T) {
 			}
 		}
 	}
+
+	// ---- (a2) echo sites that need the same user string at several places at once (duplicates,
+	// mismatches against a declared set): § is replaced by the payload everywhere
+	for ti, tmpl := range c16Templates {
+		for _, pl := range c16Payloads {
+			core := pl.yaml
+			if len(core) >= 3 && core[0] == 'a' && core[len(core)-1] == 'b' {
+				core = core[1 : len(core)-1]
+			}
+			for wi, w := range []string{"%s", "x%sy", "[%s-a]", "%s: x"} {
+				idx++
+				if !r.Mine(idx) {
+					continue
+				}
+				arg := pl.yaml
+				if wi > 0 {
+					arg = core
+				}
+				src := strings.ReplaceAll(tmpl, "§", `"`+fmt.Sprintf(w, arg)+`"`)
+				what := fmt.Sprintf("template %d payload %s wrapper %d", ti, pl.name, wi)
+				r.Begin(func() string { return what })
+				c16CheckRender(r, what, src)
+			}
+		}
+	}
+	r.Bounds["multi_site_templates"] = len(c16Templates)
 
 	// ---- (b) snippet renderer
 	alpha := []string{"a", " ", "\t", "\n", "é", "あ"}
